@@ -23,3 +23,16 @@ package utils
 //@ func (r *RTTStats) MaxAckDelay
 //@   props C20
 //@   modifies nothing
+
+//@ func (r *Rand) Int31n
+//@   trusted rejection sampling over crypto/rand with bit masks; result range stated from the documented behaviour (math/rand.Int31n)
+//@   requires n > 0
+//@   ensures 0 <= result && result < n
+//@   modifies r.*
+
+//@ func (r *RTTStats) PTO
+//@   props C06
+//@   modifies nothing
+//@ func (r *RTTStats) HasMeasurement
+//@   props C06
+//@   modifies nothing
